@@ -27,6 +27,7 @@ edition = "2021"
 
 [dependencies]
 fast_qr = { path = "%s", default-features = false }
+qrcode = { version = "0.12.0", default-features = false }   # only for `selfcheck` (oracle vs an independent encoder)
 
 # the dependency is compiled with the checks the property statements assume ("debug assertions on")
 [profile.release]
@@ -119,9 +120,21 @@ def sweep(props, size='quick', seed=0, repo=None):
         raise NativeUnavailable('native oracle crashed (exit %s): %s' % (p.returncode, (p.stderr or p.stdout)[-400:]))
     r = {'summary': summary, 'failures': fails, 'cmd': ' '.join(cmd), 'wall_s': round(time.time() - t0, 2), 'cached': False,
          'bound': 'deterministic corpus "%s" seed %s: %d single cases + %d groups of 9 builds (8 forced masks + automatic); all 480 (mode, level, version) capacity boundaries, all 40 versions, all 256 byte values for mode detection' % (size, seed, summary.get('single_cases', 0), summary.get('mask_groups', 0))}
+    try:
+        r['oracle_selfcheck_vs_qrcode_0_12'] = json.load(open(os.path.join(ROOT, 'selfcheck.json')))['result']
+    except Exception:
+        r['oracle_selfcheck_vs_qrcode_0_12'] = 'not run (tools/setup.py runs it)'
     os.makedirs(ROOT, exist_ok=True)
     json.dump(r, open(cpath, 'w'))
     return r
+
+
+def selfcheck(repo=None):
+    """The oracle's ISO transcription against the independent qrcode 0.12 crate (960 cases, every version/level/mode)."""
+    exe = build(repo)
+    p = subprocess.run([exe, 'selfcheck'], capture_output=True, text=True, timeout=1200)
+    last = [l for l in p.stdout.splitlines() if l.startswith('{')]
+    return {'rc': p.returncode, 'result': json.loads(last[-1]) if last else None, 'failures': [l for l in p.stdout.splitlines() if l.startswith('SELFCHECK-FAIL')][:10]}
 
 
 def replay_case(case, repo=None):
